@@ -124,7 +124,7 @@ def rule_pipe(ctx):
             raise AnalysisGap("decompose: no unique local initialised from self.%s" % name)
         lid = cands[0]["pat"]["id"]
         steps = []
-        for conds, s, n in flow.pipeline(b["body"], lid):
+        for conds, s, n in flow.pipeline(b["body"], lid, mutations=True):
             steps.append((tuple(conds), flow.strip_ids(s), tuple(sorted(set(portfolio_consts(b["body"], s))))))
         pipes[name] = steps
     # sibling equality
